@@ -358,13 +358,18 @@ theorem unsafe_histories_still_panic :
     certificate (`FinalPendingNotar`), `(2,2)` becomes implicitly finalized — the status forgets the certificate —
     and then the notarization certificate of the sibling `(2,5)` arrives, which makes `(2,5)` *directly* finalized:
     a genuine safety violation (`¬ Safe`).  The pinned code panicked here; the repaired code ignores the
-    certificate (and reports nothing for `(2,5)`).  In the other arrival order the violation is still caught
-    (`unsafe_histories_still_panic`, fourth history). -/
+    certificate (and reports nothing for `(2,5)`).  Likewise when the sibling's notarization came first, was
+    replaced by `ImplicitlyFinalized(2)`, and the finalization certificate of the slot arrives last (second history).
+    In the arrival orders in which the direct finalization of `(2,5)` completes *before* the ancestor walk reaches
+    slot 2 the violation is still caught (`unsafe_histories_still_panic`, fourth history). -/
 theorem unsafe_history_undetected_after_d27 :
     let ops : List Op := [.final 2, .parent (3, 3) (2, 2), .fastFinal (3, 3), .notar (2, 5)]
+    let ops' : List Op := [.notar (2, 5), .parent (3, 3) (2, 2), .fastFinal (3, 3), .final 2]
     ¬ Safe ops ∧ Direct ops (2, 5) ∧ Final ops (2, 2) ∧
-    (run init ops).map (fun r => (r.1.status 2, repF r.2)) = some (some (.implFinalized 2), [(3, 3), (2, 2)]) := by
-  refine ⟨by decide, by decide, ?_, by decide⟩
+    (run init ops).map (fun r => (r.1.status 2, repF r.2)) = some (some (.implFinalized 2), [(3, 3), (2, 2)]) ∧
+    ¬ Safe ops' ∧
+    (run init ops').map (fun r => (r.1.status 2, repF r.2)) = some (some (.implFinalized 2), [(3, 3), (2, 2)]) := by
+  refine ⟨by decide, by decide, ?_, by decide, by decide, by decide⟩
   exact .step (c := (3, 3)) (.direct (Or.inl (by decide))) (by decide)
 
 /-- Genesis is the one report that depends on the order of arrival: if the link `(1,1) → genesis` is known before
